@@ -103,7 +103,9 @@ def depth_of(t):
 def case_strategy():
     base = st.one_of(gen_sexpr.tree(25), gen_sexpr.tree(25),
                      gen_sexpr.shaped_tree(),
-                     gen_sexpr.tree(12, gen_sexpr.small_leaf, 4))
+                     gen_sexpr.tree(12, gen_sexpr.small_leaf, 4),
+                     # leaves with unusual texts, among them the empty text (a leaf all the same)
+                     gen_sexpr.tree(10, st.sampled_from(['', '', 'a', '()', ' ', '0', '""', 'ä€']), 4))
     single = st.builds(lambda t: dict(kind='single', a=t), base)
     pair = base.flatmap(lambda t: edits(t).map(lambda e: dict(
         kind='pair', a=t, b=e[0], edit=e[1])))
